@@ -14,6 +14,7 @@ import (
 
 	"perkeep.org/pkg/blob"
 	"perkeep.org/pkg/blobserver"
+	"perkeep.org/pkg/schema"
 	"perkeep.org/pkg/blobserver/memory"
 )
 
@@ -177,6 +178,7 @@ func runC01(c *ctx) {
 	for _, p := range pool {
 		byRef[p.ref.String()] = p
 	}
+	c01Packed(c, tmp)
 	nHist := c.n(110, 1500)
 	for h := 0; h < nHist; h++ {
 		depth := 1 + c.rng.Intn(2)
@@ -475,4 +477,51 @@ func runC01(c *ctx) {
 		}
 	}
 	_ = strings.Join
+}
+
+// a blobpacked leaf that really packs: a file above the packing threshold is uploaded (chunks, then the file schema blob),
+// after which every logical blob must still be fetched, range-fetched over all boundary shapes, and stat-ed like in a map
+func c01Packed(c *ctx, tmp string) {
+	for round := 0; round < c.n(1, 4); round++ {
+		b := newBuilder(fmt.Sprintf("%s/packed%d", tmp, round))
+		root := &cfgNode{Kind: "leaf", Leaf: "blobpacked", Detail: "memory"}
+		if err := b.build(root); err != nil {
+			c.rep.Notes = append(c.rep.Notes, "build packed blobpacked: "+err.Error())
+			return
+		}
+		content := make([]byte, 600<<10+c.rng.Intn(200<<10))
+		c.rng.Read(content)
+		rec := &c04rec{}
+		if _, err := schema.WriteFileFromReader(context.Background(), rec, fmt.Sprintf("packed-%d.bin", round), bytes.NewReader(content)); err != nil {
+			c.rep.Notes = append(c.rep.Notes, "WriteFileFromReader: "+err.Error())
+			return
+		}
+		desc := fmt.Sprintf("blobpacked leaf holding a packed file of %d bytes in %d blobs", len(content), len(rec.blobs))
+		for _, data := range rec.blobs { // the file schema blob comes last: its receive packs the file
+			if _, err := blobserver.Receive(context.Background(), root.sto, blob.RefFromBytes(data), bytes.NewReader(data)); err != nil {
+				c.violation(-1, "c01-leaf-receive", desc+": receive failed: "+err.Error(), nil)
+				return
+			}
+		}
+		c.count("ops", "packed-file scenario")
+		for i, data := range rec.blobs {
+			br := blob.RefFromBytes(data)
+			c.rep.SpecChecks++
+			got, sz, err := fetchAll(root.sto, br)
+			if err != nil || !bytes.Equal(got, data) || int(sz) != len(data) {
+				c.violation(-1, "c01-leaf-fetch", fmt.Sprintf("%s: blob %d is not fetched back (err %v, %d bytes)", desc, i, err, len(got)), nil)
+				continue
+			}
+			if sf, ok := root.sto.(blob.SubFetcher); ok {
+				if w := rangeFetchCheck(sf, br, data); w != "" {
+					c.violation(-1, "c01-leaf-subfetch", fmt.Sprintf("%s: blob %d: %s", desc, i, w), nil)
+					break
+				}
+			}
+			if sbs, err := statAll(root.sto, []blob.Ref{br}); err != nil || len(sbs) != 1 || int(sbs[0].Size) != len(data) {
+				c.violation(-1, "c01-leaf-stat", fmt.Sprintf("%s: blob %d: stat answers %v (err %v)", desc, i, sbs, err), nil)
+			}
+		}
+		root.closeAll()
+	}
 }
